@@ -68,13 +68,17 @@ Record batch := mkbatch { b_id : nat; b_items : list item; b_futs : list (nat * 
 
 Record caller := mkcaller {
   cl_key : nat; cl_fid : nat; cl_creator : bool; cl_t : N;
-  cl_st : option outcome          (* None = still awaiting shield(fut) *)
+  cl_st : option outcome;         (* None = still awaiting shield(fut) *)
+  cl_arg : nat; cl_ko : option nat;
+  cl_more : nat                   (* the calling task makes this many further calls (same arg / key), each one
+                                     in the continuation of the previous answer, without yielding to the loop *)
 }.
 
 Inductive bev := EvYield (k : nat) (r : res) | EvRaise (e : nat) | EvFin.
 
 Inductive event :=
 | Call (a : nat) (k : option nat)              (* await batcher(a) / batcher(a, key=str k) *)
+| Chain (a : nat) (k : option nat) (m : nat)   (* one task:  for _ in range(m+1): await batcher(a, key=...)  *)
 | Burst (l : list (nat * option nat))          (* several calls in one loop iteration *)
 | Advance (dt : N)
 | BYield (b : nat) (k : nat) (r : res)         (* batch function of batch b yields (k, r) *)
@@ -107,26 +111,28 @@ Record state := mkst {
   g_items : list item;                       (* item-creating calls, in arrival order *)
   g_started : list (nat * list item * N);    (* invocations of the batch function, in order *)
   g_blog : list (nat * bev);                 (* effective batch-function events, in order *)
+  g_spawn : list (list item * N);            (* _process_batch tasks spawned by the collector: items, spawn tick *)
   tie : bool;                                (* a batch deadline and a retention deadline fired at the same instant *)
   fuel_out : bool                            (* [advance] ran out of fuel (proved impossible) *)
 }.
 
 Definition init (c : cfg) : state :=
-  mkst 0%N (c_maxb c) None [] [] (c_conc c) 0 0 [] [] [] [] [] [] [] false false.
+  mkst 0%N (c_maxb c) None [] [] (c_conc c) 0 0 [] [] [] [] [] [] [] [] false false.
 
-Definition set_now s v := mkst v (maxb s) (coll s) (waiting s) (running s) (free s) (nbid s) (nfut s) (fdone s) (ret s) (rtimers s) (callers s) (g_items s) (g_started s) (g_blog s) (tie s) (fuel_out s).
-Definition set_maxb s v := mkst (now s) v (coll s) (waiting s) (running s) (free s) (nbid s) (nfut s) (fdone s) (ret s) (rtimers s) (callers s) (g_items s) (g_started s) (g_blog s) (tie s) (fuel_out s).
-Definition set_coll s v := mkst (now s) (maxb s) v (waiting s) (running s) (free s) (nbid s) (nfut s) (fdone s) (ret s) (rtimers s) (callers s) (g_items s) (g_started s) (g_blog s) (tie s) (fuel_out s).
-Definition set_waiting s v := mkst (now s) (maxb s) (coll s) v (running s) (free s) (nbid s) (nfut s) (fdone s) (ret s) (rtimers s) (callers s) (g_items s) (g_started s) (g_blog s) (tie s) (fuel_out s).
-Definition set_running s v := mkst (now s) (maxb s) (coll s) (waiting s) v (free s) (nbid s) (nfut s) (fdone s) (ret s) (rtimers s) (callers s) (g_items s) (g_started s) (g_blog s) (tie s) (fuel_out s).
-Definition set_free s v := mkst (now s) (maxb s) (coll s) (waiting s) (running s) v (nbid s) (nfut s) (fdone s) (ret s) (rtimers s) (callers s) (g_items s) (g_started s) (g_blog s) (tie s) (fuel_out s).
-Definition set_ret s v := mkst (now s) (maxb s) (coll s) (waiting s) (running s) (free s) (nbid s) (nfut s) (fdone s) v (rtimers s) (callers s) (g_items s) (g_started s) (g_blog s) (tie s) (fuel_out s).
-Definition set_rtimers s v := mkst (now s) (maxb s) (coll s) (waiting s) (running s) (free s) (nbid s) (nfut s) (fdone s) (ret s) v (callers s) (g_items s) (g_started s) (g_blog s) (tie s) (fuel_out s).
-Definition set_callers s v := mkst (now s) (maxb s) (coll s) (waiting s) (running s) (free s) (nbid s) (nfut s) (fdone s) (ret s) (rtimers s) v (g_items s) (g_started s) (g_blog s) (tie s) (fuel_out s).
-Definition set_fdone s v := mkst (now s) (maxb s) (coll s) (waiting s) (running s) (free s) (nbid s) (nfut s) v (ret s) (rtimers s) (callers s) (g_items s) (g_started s) (g_blog s) (tie s) (fuel_out s).
-Definition set_blog s v := mkst (now s) (maxb s) (coll s) (waiting s) (running s) (free s) (nbid s) (nfut s) (fdone s) (ret s) (rtimers s) (callers s) (g_items s) (g_started s) v (tie s) (fuel_out s).
-Definition set_tie s v := mkst (now s) (maxb s) (coll s) (waiting s) (running s) (free s) (nbid s) (nfut s) (fdone s) (ret s) (rtimers s) (callers s) (g_items s) (g_started s) (g_blog s) v (fuel_out s).
-Definition set_fuel_out s := mkst (now s) (maxb s) (coll s) (waiting s) (running s) (free s) (nbid s) (nfut s) (fdone s) (ret s) (rtimers s) (callers s) (g_items s) (g_started s) (g_blog s) (tie s) true.
+Definition set_now s v := mkst v (maxb s) (coll s) (waiting s) (running s) (free s) (nbid s) (nfut s) (fdone s) (ret s) (rtimers s) (callers s) (g_items s) (g_started s) (g_blog s) (g_spawn s) (tie s) (fuel_out s).
+Definition set_maxb s v := mkst (now s) v (coll s) (waiting s) (running s) (free s) (nbid s) (nfut s) (fdone s) (ret s) (rtimers s) (callers s) (g_items s) (g_started s) (g_blog s) (g_spawn s) (tie s) (fuel_out s).
+Definition set_coll s v := mkst (now s) (maxb s) v (waiting s) (running s) (free s) (nbid s) (nfut s) (fdone s) (ret s) (rtimers s) (callers s) (g_items s) (g_started s) (g_blog s) (g_spawn s) (tie s) (fuel_out s).
+Definition set_waiting s v := mkst (now s) (maxb s) (coll s) v (running s) (free s) (nbid s) (nfut s) (fdone s) (ret s) (rtimers s) (callers s) (g_items s) (g_started s) (g_blog s) (g_spawn s) (tie s) (fuel_out s).
+Definition set_running s v := mkst (now s) (maxb s) (coll s) (waiting s) v (free s) (nbid s) (nfut s) (fdone s) (ret s) (rtimers s) (callers s) (g_items s) (g_started s) (g_blog s) (g_spawn s) (tie s) (fuel_out s).
+Definition set_free s v := mkst (now s) (maxb s) (coll s) (waiting s) (running s) v (nbid s) (nfut s) (fdone s) (ret s) (rtimers s) (callers s) (g_items s) (g_started s) (g_blog s) (g_spawn s) (tie s) (fuel_out s).
+Definition set_ret s v := mkst (now s) (maxb s) (coll s) (waiting s) (running s) (free s) (nbid s) (nfut s) (fdone s) v (rtimers s) (callers s) (g_items s) (g_started s) (g_blog s) (g_spawn s) (tie s) (fuel_out s).
+Definition set_rtimers s v := mkst (now s) (maxb s) (coll s) (waiting s) (running s) (free s) (nbid s) (nfut s) (fdone s) (ret s) v (callers s) (g_items s) (g_started s) (g_blog s) (g_spawn s) (tie s) (fuel_out s).
+Definition set_callers s v := mkst (now s) (maxb s) (coll s) (waiting s) (running s) (free s) (nbid s) (nfut s) (fdone s) (ret s) (rtimers s) v (g_items s) (g_started s) (g_blog s) (g_spawn s) (tie s) (fuel_out s).
+Definition set_fdone s v := mkst (now s) (maxb s) (coll s) (waiting s) (running s) (free s) (nbid s) (nfut s) v (ret s) (rtimers s) (callers s) (g_items s) (g_started s) (g_blog s) (g_spawn s) (tie s) (fuel_out s).
+Definition set_blog s v := mkst (now s) (maxb s) (coll s) (waiting s) (running s) (free s) (nbid s) (nfut s) (fdone s) (ret s) (rtimers s) (callers s) (g_items s) (g_started s) v (g_spawn s) (tie s) (fuel_out s).
+Definition set_spawn s v := mkst (now s) (maxb s) (coll s) (waiting s) (running s) (free s) (nbid s) (nfut s) (fdone s) (ret s) (rtimers s) (callers s) (g_items s) (g_started s) (g_blog s) v (tie s) (fuel_out s).
+Definition set_tie s v := mkst (now s) (maxb s) (coll s) (waiting s) (running s) (free s) (nbid s) (nfut s) (fdone s) (ret s) (rtimers s) (callers s) (g_items s) (g_started s) (g_blog s) (g_spawn s) v (fuel_out s).
+Definition set_fuel_out s := mkst (now s) (maxb s) (coll s) (waiting s) (running s) (free s) (nbid s) (nfut s) (fdone s) (ret s) (rtimers s) (callers s) (g_items s) (g_started s) (g_blog s) (g_spawn s) (tie s) true.
 
 (* ---- small maps --------------------------------------------------------- *)
 
@@ -159,11 +165,12 @@ Definition start_batch (its : list item) (s : state) : state * list obs :=
   let b := nbid s in
   (mkst (now s) (maxb s) (coll s) (waiting s) (running s ++ [mkbatch b its (futs_of its)]) (free s)
         (S b) (nfut s) (fdone s) (ret s) (rtimers s) (callers s) (g_items s)
-        (g_started s ++ [(b, its, now s)]) (g_blog s) (tie s) (fuel_out s),
+        (g_started s ++ [(b, its, now s)]) (g_blog s) (g_spawn s) (tie s) (fuel_out s),
    [BatchStart b (map ka its) (now s)]).
 
 (* _processing_loop spawns _process_batch(tasks), which enters the semaphore or queues on it *)
-Definition dispatch (its : list item) (s : state) : state * list obs :=
+Definition dispatch (its : list item) (s0 : state) : state * list obs :=
+  let s := set_spawn s0 (g_spawn s0 ++ [(its, now s0)]) in      (* ghost: the spawn is logged *)
   if 0 <? free s then start_batch its (set_free s (free s - 1))
   else (set_waiting s (waiting s ++ [its]), []).
 
@@ -218,7 +225,7 @@ Fixpoint wake_from (fd : list (nat * (outcome * N))) (t : N) (i : nat) (cs : lis
       let '(r', os) := wake_from fd t (S i) r in
       match cl_st cl, lookup fd (cl_fid cl) with
       | None, Some (o, _) =>
-          (mkcaller (cl_key cl) (cl_fid cl) (cl_creator cl) (cl_t cl) (Some o) :: r',
+          (mkcaller (cl_key cl) (cl_fid cl) (cl_creator cl) (cl_t cl) (Some o) (cl_arg cl) (cl_ko cl) (cl_more cl) :: r',
            CallerDone i o t :: os)
       | _, _ => (cl :: r', os)
       end
@@ -226,15 +233,6 @@ Fixpoint wake_from (fd : list (nat * (outcome * N))) (t : N) (i : nat) (cs : lis
 
 Definition wake (s : state) : state * list obs :=
   let '(cs, os) := wake_from (fdone s) (now s) 0 (callers s) in (set_callers s cs, os).
-
-(* the batch ends (function returned, raised, or the result loop failed): leave
-   the semaphore, then give [o] to every future still in futs *)
-Definition end_batch (c : cfg) (b : batch) (o : outcome) (s : state) : state * list obs :=
-  let s0 := set_running s (filter (fun x => negb (Nat.eqb (b_id x) (b_id b))) (running s)) in
-  let '(s1, o1) := release_slot s0 in
-  let '(s2, died) := fanout c (b_futs b) o s1 in
-  let '(s3, o3) := wake s2 in
-  (s3, o1 ++ o3 ++ (if died then [TaskDied] else [])).
 
 Definition find_batch (s : state) (b : nat) : option batch :=
   find (fun x => Nat.eqb (b_id x) b) (running s).
@@ -250,22 +248,22 @@ Definition key_of (a : nat) (k : option nat) : nat := match k with Some k => k |
 
 Definition add_caller (s : state) (cl : caller) : state := set_callers s (callers s ++ [cl]).
 
-Definition do_call (c : cfg) (a : nat) (ko : option nat) (s : state) : state * list obs :=
+Definition do_call (c : cfg) (a : nat) (ko : option nat) (m : nat) (s : state) : state * list obs :=
   let k := key_of a ko in
   let cid := length (callers s) in
   match lookup (ret s) k with
   | Some f =>
       match lookup (fdone s) f with
-      | Some (o, _) => (add_caller s (mkcaller k f false (now s) (Some o)), [CallerDone cid o (now s)])
-      | None => (add_caller s (mkcaller k f false (now s) None), [])
+      | Some (o, _) => (add_caller s (mkcaller k f false (now s) (Some o) a ko m), [CallerDone cid o (now s)])
+      | None => (add_caller s (mkcaller k f false (now s) None a ko m), [])
       end
   | None =>
       let f := nfut s in
       let it := mkitem k a f (now s) (maxb s) in
       let s1 := mkst (now s) (maxb s) (coll s) (waiting s) (running s) (free s) (nbid s) (S f)
                      (fdone s) ((k, f) :: ret s) (rtimers s)
-                     (callers s ++ [mkcaller k f true (now s) None])
-                     (g_items s ++ [it]) (g_started s) (g_blog s) (tie s) (fuel_out s) in
+                     (callers s ++ [mkcaller k f true (now s) None a ko m])
+                     (g_items s ++ [it]) (g_started s) (g_blog s) (g_spawn s) (tie s) (fuel_out s) in
       take c it s1
   end.
 
@@ -273,10 +271,70 @@ Fixpoint do_calls (c : cfg) (l : list (nat * option nat)) (s : state) : state * 
   match l with
   | [] => (s, [])
   | (a, ko) :: r =>
-      let '(s1, o1) := do_call c a ko s in
+      let '(s1, o1) := do_call c a ko 0 s in
       let '(s2, o2) := do_calls c r s1 in
       (s2, o1 ++ o2)
   end.
+
+(* the remembered future of key k is done: a call returns at once, without yielding to the loop *)
+Definition cached_done (s : state) (k : nat) : bool :=
+  match lookup (ret s) k with Some f => is_done s f | None => false end.
+
+(* a task making m+1 sequential calls: while a call is answered at once the next one follows immediately *)
+Fixpoint do_chain (c : cfg) (a : nat) (ko : option nat) (m : nat) (s : state) : state * list obs :=
+  let '(s1, o1) := do_call c a ko m s in
+  match m with
+  | 0 => (s1, o1)
+  | S m' =>
+      if cached_done s (key_of a ko)
+      then let '(s2, o2) := do_chain c a ko m' s1 in (s2, o1 ++ o2)
+      else (s1, o1)
+  end.
+
+(* callers about to be resumed whose task calls again: (future, (arg, key, remaining)) *)
+Fixpoint recalls_of (fd : list (nat * (outcome * N))) (cs : list caller) : list (nat * (nat * option nat * nat)) :=
+  match cs with
+  | [] => []
+  | cl :: r =>
+      match cl_st cl, lookup fd (cl_fid cl), cl_more cl with
+      | None, Some _, S m' => (cl_fid cl, (cl_arg cl, cl_ko cl, m')) :: recalls_of fd r
+      | _, _, _ => recalls_of fd r
+      end
+  end.
+
+(* tasks are resumed in the order their futures were resolved (futs order = future-id order), and per
+   future in the order they started to wait (caller order): stable insertion sort by future id *)
+Fixpoint insert_rc (x : nat * (nat * option nat * nat)) (l : list (nat * (nat * option nat * nat))) :=
+  match l with
+  | [] => [x]
+  | y :: r => if fst y <=? fst x then y :: insert_rc x r else x :: l
+  end.
+Definition sort_rc (l : list (nat * (nat * option nat * nat))) := fold_left (fun acc x => insert_rc x acc) l [].
+
+Fixpoint do_recalls (c : cfg) (l : list (nat * (nat * option nat * nat))) (s : state) : state * list obs :=
+  match l with
+  | [] => (s, [])
+  | (_, (a, ko, m)) :: r =>
+      let '(s1, o1) := do_chain c a ko m s in
+      let '(s2, o2) := do_recalls c r s1 in
+      (s2, o1 ++ o2)
+  end.
+
+(* resume the callers of the futures that are now done; those whose task calls again do so at once *)
+Definition wake_all (c : cfg) (s : state) : state * list obs :=
+  let rc := sort_rc (recalls_of (fdone s) (callers s)) in
+  let '(s1, o1) := wake s in
+  let '(s2, o2) := do_recalls c rc s1 in
+  (s2, o1 ++ o2).
+
+(* the batch ends (function returned, raised, or the result loop failed): leave
+   the semaphore, then give [o] to every future still in futs *)
+Definition end_batch (c : cfg) (b : batch) (o : outcome) (s : state) : state * list obs :=
+  let s0 := set_running s (filter (fun x => negb (Nat.eqb (b_id x) (b_id b))) (running s)) in
+  let '(s1, o1) := release_slot s0 in
+  let '(s2, died) := fanout c (b_futs b) o s1 in
+  let '(s3, o3) := wake_all c s2 in
+  (s3, o1 ++ o3 ++ (if died then [TaskDied] else [])).
 
 (* ---- time ---------------------------------------------------------------- *)
 
@@ -327,6 +385,7 @@ Definition cancel_caller (s : state) (cid : nat) : state * list obs :=
       | None =>
           (set_callers s (firstn cid (callers s)
                           ++ mkcaller (cl_key cl) (cl_fid cl) (cl_creator cl) (cl_t cl) (Some Cancelled)
+                                      (cl_arg cl) (cl_ko cl) (cl_more cl)
                           :: skipn (S cid) (callers s)),
            [CallerDone cid Cancelled (now s)])
       | Some _ => (s, [])
@@ -336,7 +395,8 @@ Definition cancel_caller (s : state) (cid : nat) : state * list obs :=
 
 Definition step (c : cfg) (s : state) (e : event) : state * list obs :=
   match e with
-  | Call a ko => do_call c a ko s
+  | Call a ko => do_call c a ko 0 s
+  | Chain a ko m => do_chain c a ko m s
   | Burst l => do_calls c l s
   | Advance dt => advance (length (rtimers s) + 3) (now s + dt)%N s
   | BYield b k r =>
@@ -349,7 +409,7 @@ Definition step (c : cfg) (s : state) (e : event) : state * list obs :=
           | Some f =>
               let fs := remove_key k (b_futs B) in
               match set_fut c k f (of_res r) (set_batch_futs s0 b fs) with
-              | Some s1 => wake s1
+              | Some s1 => wake_all c s1
               | None => end_batch c (mkbatch (b_id B) (b_items B) fs) (LibExc 1) (set_batch_futs s0 b fs)
               end
           end
